@@ -73,6 +73,12 @@ class C18(PropertyCheck):
             for mask in range(1 << len(members)):
                 pres = [m for k, m in enumerate(members) if (mask >> k) & 1]
                 add(2, [make_spec(rng, pres, name=(mask & 1) == 0)], "byte-subsets")
+        # codec edge strings (seeds C17-8, C18-8): as name and as string fields of the short and of the long form
+        for k, w in enumerate(R.CODEC_WORDS):
+            sp = make_spec(rng, [k % R.N_STRS, (k + 7) % R.N_STRS, 31, 32] if k % 2 else [k % 31], name=True)
+            sp["name"] = w
+            sp["strs"] = [(w if v is not None else None) for v in sp["strs"]]
+            add(3, [sp], "codec-edge")
         add(0, [], "empty-file")
         add(0xFFFFFFFF, [], "empty-file")
         n_rand = 500 if tier == "quick" else 30000
